@@ -13,6 +13,8 @@ pub struct Violation {
 pub struct Acc {
     pub evaluations: u64,
     pub nontrivial: HashSet<u64>,
+    /// non-trivial cases that are distinct by construction (complete enumerations), counted instead of hashed
+    pub nontrivial_enumerated: u64,
     pub classes: BTreeMap<String, u64>,
     pub excluded: BTreeMap<String, u64>,
     samples: BTreeMap<String, Vec<Value>>,
@@ -26,6 +28,9 @@ pub const SAMPLES_PER_CLASS: usize = 2;
 impl Acc {
     pub fn new() -> Self {
         Self::default()
+    }
+    pub fn distinct_nontrivial(&self) -> u64 {
+        self.nontrivial.len() as u64 + self.nontrivial_enumerated
     }
     /// one executed case. `hash` identifies the case; `nontrivial` per the property's stated rule.
     pub fn case(&mut self, class: &str, hash: u64, nontrivial: bool) {
@@ -56,6 +61,7 @@ impl Acc {
     pub fn merge(&mut self, o: Acc) {
         self.evaluations += o.evaluations;
         self.nontrivial.extend(o.nontrivial);
+        self.nontrivial_enumerated += o.nontrivial_enumerated;
         for (k, v) in o.classes {
             *self.classes.entry(k).or_insert(0) += v;
         }
@@ -109,7 +115,7 @@ pub struct EvidenceMeta<'a> {
 pub fn evidence_json(meta: &EvidenceMeta, acc: &Acc) -> Value {
     let mut coverage = json!({
         "evaluations": acc.evaluations,
-        "distinct_nontrivial": acc.nontrivial.len(),
+        "distinct_nontrivial": acc.distinct_nontrivial(),
         "rule": meta.rule,
         "samples": acc.samples_flat(48),
         "classes": acc.classes,
